@@ -68,9 +68,9 @@ def scenarios(prop, quick, seed):
         elif fam == 7:         # BulkGet callers whose missing keys are all in flight elsewhere (they must wait for the joined loads)
             sc.update(getters=1 + j % 2, bulk=2, bulkkeys=1 + (j // 8) % 2, refreshers=0, refresh=0, preload=0, writers=[],
                       outcomes=[["val"], ["val", "nf"], ["val", "err"]][(j // 16) % 3])
-        if fam == 0 and (j // 8) % 2 == 0:
+        if fam == 0:
             # the write happens inside the loader itself (user code): a whole call between the start of the load and its installation
-            sc.update(getters=1 + (j // 16) % 2, bulk=0, refreshers=(j // 32) % 2, refresh=(j // 32) % 2, preload=(j // 32) % 2, writers=[], outcomes=["val"],
+            sc.update(getters=1 + (j // 16) % 2, bulk=0, refreshers=(j // 32) % 2, refresh=(j // 32) % 2, preload=(j // 32) % 2, writers=[], outcomes=[["val"], ["nf"], ["val"], ["err"]][(j // 8) % 4],
                       inloader=[["set"], ["invalidate"], ["compute"], ["computeinv"], ["invalidateAll"], ["set", "invalidate"]][(j // 16) % 6])
         if fam == 2 and refresh and (j // 8) % 2:
             sc.update(bulkref=1 + (j // 16) % 2)
